@@ -32,8 +32,11 @@ def h_ckpt(sym, scheduler="pbt", W=2, T=3, K=1, delete=True, max_t=2, P=8, early
     elif scheduler == "promotion":
         from syne_tune.optimizer.schedulers.hyperband import HyperbandScheduler
         cs = {"x": uniform(0, 1), "epochs": max_t}
-        inner = make(HyperbandScheduler, cs, searcher="random", metric="m", mode="min", resource_attr="r",
-                     max_resource_attr="epochs", type="promotion", grace_period=1, reduction_factor=2, random_seed=0)
+        def _mk():
+            extra = dict(early_checkpoint_removal_kwargs=dict(max_num_checkpoints=1, baseline="by_level")) if early_removal else {}
+            return HyperbandScheduler(cs, searcher="random", metric="m", mode="min", resource_attr="r", max_resource_attr="epochs",
+                                      type="promotion", grace_period=1, reduction_factor=2, random_seed=0, **extra)
+        inner = make(_mk)
         R_of = lambda be, tid: be._trial_dict[tid].config["epochs"] if tid in be._trial_dict else 1
     elif scheduler == "sync":
         from syne_tune.optimizer.schedulers.synchronous import SynchronousGeometricHyperbandScheduler
@@ -51,9 +54,19 @@ def h_ckpt(sym, scheduler="pbt", W=2, T=3, K=1, delete=True, max_t=2, P=8, early
         raise AssertionError(scheduler)
     sch = spy_on(inner, mon)
     be = ScriptBackend(sym, mon, R=max_t, K=K, J=0, max_fail=max_fail, Z=0, P=P, delete_checkpoints=delete, value_fn=value_fn, R_of=R_of)
+    be.speculative_removal = early_removal
     cb = LoopCallback(be, mon)
-    tuner = make_tuner(sym, sch, be, [cb], W, StoppingCriterion(max_num_trials_started=T, max_num_evaluations=E))
+    tuner = make_tuner(sym, sch, be, [cb], W, StoppingCriterion(max_num_trials_started=T, max_num_evaluations=E, max_wallclock_time=10 ** 6))
     tuner.run()
+    if early_removal:
+        from syne_tune.callbacks.hyperband_remove_checkpoints_callback import HyperbandRemoveCheckpointsCommon
+        rc = [c for c in tuner.callbacks if isinstance(c, HyperbandRemoveCheckpointsCommon)]
+        sym.check(len(rc) == 1, "C20.early-removal-callback-not-installed", str(tuner.callbacks))
+        reported = sorted(int(t) for t, _ in rc[0].trials_resumed_without_checkpoint())
+        actual = sorted(getattr(be, "resumed_without_ckpt", []))
+        sym.check(reported == actual, "C20.resumed-without-checkpoint-list", "callback reports %s, backend saw resumes without checkpoint for %s" % (reported, actual))
+        if rc[0].num_checkpoints_removed > 0:
+            sym.goal("checkpoint-removed-early")
     sym.goal("end")
 
 
@@ -82,6 +95,12 @@ def obligations(tier):
                   dict(scheduler="sync", W=3, T=3, K=1, delete=True, max_t=3, P=8, E=5, max_fail=1, rungs=[[[3, 1], [1, 3]]]),
                   bounds=dict(W=3, trials="<=4", results="<=6", rungs="(3,1)(1,3)", failures="<=1"), goals=("end", "failure", "resume"),
                   split=(("k_p2_t0", (0, 1)), ("k_p2_t1", (0, 1)), ("k_p2_t2", (0, 1))), budget_s=1800))
+    # speculative early removal explicitly requested: only paused trials lose their checkpoint, and the callback's
+    # list of 'resumed without checkpoint' is exactly what the backend saw
+    obs.append(Ob("C20.e[promotion,early-removal,max_num_checkpoints=1]", "props.c20:h_ckpt",
+                  dict(scheduler="promotion", W=2, T=2, K=1, delete=True, max_t=2, P=10, E=4, early_removal=True),
+                  bounds=dict(W=2, trials="<=3", results="<=5", max_t=2, max_num_checkpoints=1, baseline="by_level"), goals=("end", "checkpoint-removed-early"),
+                  split=(("k_p2_t0", (0, 1)), ("k_p2_t1", (0, 1)), ("end_p2_t0", (0, 1)), ("end_p2_t1", (0, 1))), budget_s=1800))
     obs.append(Ob("C20.d[promotion,no-delete]", "props.c20:h_ckpt", dict(scheduler="promotion", W=2, T=2, K=1, delete=False, max_t=2, P=8),
                   bounds=dict(W=2, T=2, max_t=2, delete_checkpoints=False), goals=("end",), budget_s=1800))
     return obs
